@@ -81,7 +81,7 @@ def run(res, tier, seed):
     proof_ok = proof_stage(res, "Rva.Proofs.C10", THEOREMS, extra_modules=["Rva.Proofs.C05b", "Rva.Proofs.C16"])
     build_rva()
     n = 40 if tier == "quick" else 400
-    reps = 6 if tier == "quick" else 12
+    reps = 20 if tier == "quick" else 32          # a 1-in-6 order flip is missed by 20 runs with probability 3 %
     # nodes that belong to two functions (shared tails): every per-node list of functions is a hash
     # set in the real code; these come first so that the CLI stage (all modes, --yaml included) sees them
     shared = ["main:\n    jal fa\n    jal fb\n    li a7, 10\n    ecall\nfa:\n    li a0, 1\n    j tail\nfb:\n    li a0, 2\ntail:\n"
@@ -107,6 +107,21 @@ def run(res, tier, seed):
     for a, b in (("s1", "s2"), ("s11", "s3"), ("s0", "s10")):
         shared.append(f"main:\n    li a0, 1\n    jal f\n    li a7, 10\n    ecall\nf:\n    add a0, {a}, {b}\n    beq {b}, {a}, fo\n    sub a0, {b}, {a}\n"
                       f"fo:\n    ret\n")
+    # (since the repair c9dab40 a jump from inside the function is a loop: the jumps below come from code
+    # that is not part of the functions they enter)
+    shared += ["fn_a:\n    addi a0, a0, -1\n    ret\nmain:\n    jal fn_a\n    beqz a0, out\n    j fn_a\nout:\n    addi a7, zero, 10\n    ecall\n",
+               "fn_a:\n    addi a0, a0, -1\n    ret\nmain:\n    jal fn_a\n    beqz a0, m2\n    j fn_a\nm2:\n    bnez a1, out\n    j fn_a\nout:\n"
+               "    addi a7, zero, 10\n    ecall\n",
+               "main:\n    li a0, 0\n    jal f\n    jal g\n    beqz a0, out\n    j g\nout:\n    li a7, 10\n    ecall\nf:\n    addi a0, a0, 1\n"
+               "g:\n    addi a0, a0, 2\n    ret\n",
+               "main:\n    li a0, 0\n    jal f\n    jal h\n    jal g\n    beqz a0, out\n    j g\nout:\n    li a7, 10\n    ecall\nh:\n    addi a0, a0, 3\n"
+               "    bnez a0, g\nf:\n    addi a0, a0, 1\ng:\n    addi a0, a0, 2\n    ret\n"]
+    # items of different kinds at one location (the program entry and a jump from another function both lead
+    # into the first function): their order must not depend on the order of a predecessor set. The input is
+    # the witness of F-63 (its two identical 'First instruction is function' items are that finding)
+    import findings as _findings
+    known_inputs = {f_["input"] for f_ in _findings.load() if "C10" in f_["properties"]}
+    shared += [f_["input"] for f_ in _findings.load() if f_["id"] == "F-63"]
     # one saved register overwritten on both arms of a branch (at the same and at different distances
     # from the single return), on three arms, and twice on one arm: every overwrite is found whatever
     # order the backward search meets them in
@@ -187,7 +202,7 @@ def run(res, tier, seed):
                     key = (field(l, "sev"), field(l, "title"), at_)
                     sites.setdefault(key, set()).add(field(l, "site"))
         dups = [k for k, v in seen.items() if v > max(1, len(sites.get(k, ())))]
-        if dups and first is None:
+        if dups and first is None and s not in known_inputs:
             first = {"what": f"the same diagnostic is reported {seen[dups[0]]} times: "
                              f"{unhx(dups[0][1])!r} at {dups[0][2]}", "source": s,
                      "replay_cmd": "echo '%s' | %s" % (pipe_req("run", [("m.s", s)]), RVH_DEBUG)}
